@@ -5,6 +5,7 @@ package storepbt
 import (
 	"encoding/json"
 	"fmt"
+	"math"
 	"regexp"
 	"sort"
 	"strings"
@@ -134,6 +135,16 @@ func (m *Model) sortedKeys(tbl string, less func(a, b core.Row) bool) []string {
 }
 
 var promiseCols = []string{"id", "state", "param_headers", "param_data", "value_headers", "value_data", "timeout", "idempotency_key_for_create", "idempotency_key_for_complete", "tags", "created_on", "completed_on"}
+
+// leaseEnd: clock + ttl over the integers; a sum the column cannot hold is its largest value ("never"), not a wrapped
+// number, a value of another type or an error
+func leaseEnd(t, ttl int64) int64 {
+	if ttl > 0 && t > math.MaxInt64-ttl {
+		return math.MaxInt64
+	}
+	return t + ttl
+}
+
 var taskCols = []string{"id", "process_id", "state", "root_promise_id", "recv", "mesg", "timeout", "counter", "attempt", "ttl", "expires_at", "created_on", "completed_on"}
 
 func (m *Model) insertPromise(c *t_aio.CreatePromiseCommand) int64 {
@@ -379,7 +390,7 @@ func (m *Model) Apply(cmd *t_aio.Command) Expect {
 		for _, k := range m.T.Keys("tasks") {
 			r := m.T["tasks"][k]
 			if r["process_id"] != nil && r.S("process_id") == c.ProcessId && r.I("state") == 4 {
-				r["expires_at"] = c.Time + r.I("ttl")
+				r["expires_at"] = leaseEnd(c.Time, r.I("ttl"))
 				e.Rows++
 			}
 		}
@@ -408,7 +419,7 @@ func (m *Model) Apply(cmd *t_aio.Command) Expect {
 		c := cmd.HeartbeatLocks
 		for _, k := range m.T.Keys("locks") {
 			if r := m.T["locks"][k]; r.S("process_id") == c.ProcessId {
-				r["expires_at"] = c.Time + r.I("ttl")
+				r["expires_at"] = leaseEnd(c.Time, r.I("ttl"))
 				e.Rows++
 			}
 		}
